@@ -10,7 +10,7 @@ INFO = {
                   'every visit* that raises for an unsupported construct (discrete online, dense offline, dense online visitors, pastifiers)'],
     'bounds': {'quick': 'supported: every operator x monitor kind on 1-, 2- and 4-sample traces with symbolic values, with a declared-but-unused and a supplied-but-undeclared '
                         'variable and every order of the inputs; timed dense operators with windows over 3-4 sampling steps on 5-sample concrete grids; unsupported: operator x monitor-kind table (unbounded future online, prev/next/s_prev/s_next/rise/fall in dense time, '
-                        'bounded future and bounded until in the dense online monitor; the same after pastify(), incl. until[0,0]), bare and nested under another operator',
+                        'bounded future and bounded until in the dense online monitor; the same after pastify(), incl. until[0,0]), bare and nested under another operator; several online objects in one process with interleaved calls, a reset or a rejected object in between',
                'thorough': 'longer traces, unsupported constructs nested at depth 2, bounds variety'},
     'outside': 'malformed data (wrong shapes, NaN, decreasing time-stamps); object-typed variables',
     'assumptions': ['"no later than the first evaluation": the RTAMTException must come from parse(), pastify() or the first evaluate()/update()'],
